@@ -129,4 +129,48 @@ theorem consume_emitAll (hg : Gen.writerGuardKind = "descriptor-comparison") (os
       exact lookup_after_newDescs hg (descsOf o) reg (hn o (by simp)) d hd
     · exact ih _ (fun o' ho' => hn o' (by simp [ho']))
 
+/-- the history with failing writes in between: a write that raised leaves only descriptor frames behind, and every
+    object whose write succeeded is consumed with each of its descriptors bound to itself -/
+theorem consume_emitHist (hg : Gen.writerGuardKind = "descriptor-comparison") (h : List (PV × Option Nat))
+    (reg : Registry) (hn : ∀ e ∈ h, e.2 = none → NoInnerCollision (descsOf e.1)) :
+    consume reg (emitHist reg h).2 =
+      (h.filter (fun e => e.2.isNone)).map (fun e => (e.1, (descsOf e.1).map some)) := by
+  induction h generalizing reg with
+  | nil => simp [emitHist, consume]
+  | cons e os ih =>
+    obtain ⟨o, f⟩ := e
+    have hos : ∀ e ∈ os, e.2 = none → NoInnerCollision (descsOf e.1) := fun e he => hn e (by simp [he])
+    cases f with
+    | none =>
+      simp only [emitHist, emit, List.append_assoc, List.filter_cons, Option.isNone_none, if_true, List.map_cons]
+      rw [consume_newDescs]
+      simp only [List.cons_append, List.nil_append, consume]
+      congr 1
+      · congr 1
+        apply List.map_congr_left
+        intro d hd
+        exact lookup_after_newDescs hg (descsOf o) reg (hn (o, none) (by simp) rfl) d hd
+      · exact ih _ hos
+    | some k =>
+      simp only [emitHist, emitFailed, List.filter_cons, Option.isNone_some]
+      rw [consume_newDescs]
+      simpa using ih _ hos
+
+theorem consumeReg_emitHist (h : List (PV × Option Nat)) (reg : Registry) :
+    consumeReg reg (emitHist reg h).2 = (emitHist reg h).1 := by
+  induction h generalizing reg with
+  | nil => simp [emitHist, consumeReg]
+  | cons e os ih =>
+    obtain ⟨o, f⟩ := e
+    cases f with
+    | none =>
+      simp only [emitHist, emit, List.append_assoc]
+      rw [consumeReg_newDescs]
+      simp only [List.cons_append, List.nil_append, consumeReg]
+      exact ih _
+    | some k =>
+      simp only [emitHist, emitFailed]
+      rw [consumeReg_newDescs]
+      exact ih _
+
 end FlowRecord.Stream
